@@ -26,6 +26,37 @@ pub fn run(ctx: &mut Ctx) {
                 Some(("c07.spec_next_iv", vec![uint(role), uint(c as u64)])), true);
         }
     }
+    // (a') several sessions in ONE process over the SAME engagement (a QR code scanned twice, a retry): every session has its
+    // own keys — otherwise their first messages share key and IV.  Also: the same engagement after another one in between.
+    for round in 0..ctx.budget(3, 40) {
+        use crate::sess::*;
+        use ciborium::Value;
+        let mut rng = ctx.rng.clone();
+        let pki = crate::pki::Pki::generate(&mut rng);
+        let mut qrs = vec![];
+        for _ in 0..2 {
+            let (m, _k) = issue(&mut rng, &pki, MDL, [(NS.to_string(), [("family_name".to_string(), Value::Text("Doe".into()))].into_iter().collect())].into_iter().collect(), isomdl::definitions::DigestAlgorithm::SHA256, false);
+            let Ok(init) = isomdl::presentation::device::SessionManagerInit::initialise(documents_of(vec![m]), None, None) else { continue };
+            let Ok((_, qr)) = init.qr_engagement() else { continue };
+            qrs.push(qr);
+        }
+        ctx.rng = rng;
+        if qrs.len() < 2 { continue; }
+        let first: std::collections::BTreeMap<String, Vec<String>> = [(NS.to_string(), vec!["family_name".to_string()])].into_iter().collect();
+        let other: std::collections::BTreeMap<String, Vec<String>> = [(NS.to_string(), vec!["given_name".to_string(), "family_name".to_string()])].into_iter().collect();
+        // A, A (other request), B, A
+        let mut seen: Vec<(usize, Vec<u8>, Vec<u8>)> = vec![];
+        for (qi, req) in [(0usize, &first), (0, &other), (1, &first), (0, &first)] {
+            if let Ok(Ok((rdr, est, _))) = catch(|| isomdl::presentation::reader::SessionManager::establish_session(qrs[qi].clone(), namespaces_of(req), Default::default())) {
+                let k = rdr_view(&rdr);
+                let estv = crate::runner::from_bytes(&est).unwrap_or(Value::Null);
+                let erk = match map_get(&estv, "eReaderKey") { Some(Value::Tag(24, b)) => b.as_bytes().cloned().unwrap_or_default(), _ => vec![] };
+                seen.push((qi, k.sk_reader.clone(), erk));
+            }
+        }
+        let obs = arr(seen.iter().map(|(qi, k, erk)| arr(vec![uint(*qi as u64), bytes(k), bytes(erk)])).collect());
+        ctx.case("sessions_over_one_engagement", json!({"round": round, "sessions": seen.len()}), obs, None, Some(("c07.spec_fresh_keys", vec![])), true);
+    }
     // (b) sessions: random interleavings with failed decryptions and serialise/restore
     let n = ctx.budget(60, 3000);
     for i in 0..n {
